@@ -120,6 +120,28 @@ def frame(ex, name):
     return ex.st.alloc(HArr((R, Cc), VDtype("float64"), lambda ix: VFloat(f(z_int(ix[0]), z_int(ix[1]))))), f
 
 
+VALID = z3.Function("is_a_number", z3.RealSort(), z3.BoolSort())
+
+CHI2_REPLAY = lambda w: {"code": """
+import numpy as np
+from pyxel.calibration.fitness import reduced_chi_squared
+rng = np.random.default_rng(3)
+VIOLATED, DETAIL = False, 'reduced chi squared = sum over the valid points / (number of valid points - free parameters)'
+for where in ('none', 'target', 'simulated', 'both', 'disjoint'):
+    s, t, w = rng.normal(10, 2, (4, 5)), rng.normal(10, 2, (4, 5)), rng.uniform(0.5, 2, (4, 5))
+    if where in ('target', 'both', 'disjoint'): t[0, 1] = t[2, 3] = np.nan
+    if where in ('simulated', 'both'): s[0, 1] = s[3, 3] = np.nan
+    if where == 'disjoint': s[1, 1] = np.nan
+    valid = np.isfinite(s) & np.isfinite(t)
+    for k in (0, 3):
+        want = float((((t - s) / w) ** 2)[valid].sum() / (valid.sum() - k))
+        got = reduced_chi_squared(simulated=s.copy(), target=t.copy(), weighting=w.copy(), free_parameters=k)
+        if not np.isclose(got, want, rtol=1e-12):
+            VIOLATED, DETAIL = True, f'masked points in {where}, {k} free parameters: got {got!r}, declared figure of merit {want!r} ({int(valid.sum())} valid points)'; break
+    if VIOLATED: break
+""", "expect": "the degrees of freedom count exactly the points that enter the sum (target and simulated value both numbers)"}
+
+
 def formula_unit(fname, spec, chi2=False):
     def un(u: Unit):
         fi = u.fn(f"{FIT}::{fname}")
@@ -135,9 +157,27 @@ def formula_unit(fname, spec, chi2=False):
             holder.update(fs=fs, ft=ft, fw=fw)
             if chi2:
                 ex.st.assume(fw(g[0], g[1]) != 0)
+                # VALID data points: an entry of the target or of the simulated data may be "not a number" (masked pixel). Over the reals
+                # that is a predicate VALID on values (numpy.isfinite), closed under the arithmetic of the formula: a difference is valid
+                # iff both operands are, dividing by a (valid, non-zero) weight and squaring keep validity
+                sg, tg, wg = fs(g[0], g[1]), ft(g[0], g[1]), fw(g[0], g[1])
+                d = tg - sg
+                ex.st.assume(z3.And(VALID(d) == z3.And(VALID(tg), VALID(sg)), VALID(sg - tg) == VALID(d), VALID(d / wg) == VALID(d), VALID((d / wg) * (d / wg)) == VALID(d),
+                                    VALID(d * d) == VALID(d), VALID((d * d) / (wg * wg)) == VALID(d), VALID(wg)))
                 return [], {"simulated": s, "target": t, "weighting": w, "free_parameters": VInt(z3.Int("free_p"))}
             return [], {"simulated": s, "target": t, "weighting": w}
-        ps = u.paths(fi, setup, Cfg("real"), label=fname)
+        cfg0 = Cfg("real")
+        if chi2:
+            from pyvc import arrays as A_
+
+            def isfinite(ex, f, args, kwargs, fr):
+                v = args[0]
+                if not ex.is_arr(v):
+                    return VBool(VALID(to_real(v)))
+                c = ex.st.cell(v)
+                return A_.new_array(ex, c.shape, VDtype("bool"), lambda ix, c=c: VBool(VALID(to_real(c.elem(ix)))))
+            cfg0.lib_overrides["numpy.isfinite"] = isfinite
+        ps = u.paths(fi, setup, cfg0, label=fname)
         for p in ps:
             if p.kind != "return":
                 # the only exceptional outcome allowed is the division by a zero degree of freedom
@@ -169,6 +209,11 @@ DETAIL = '{fname}: got ' + repr(got) + ' expected ' + repr(float(spec))
                 counts = [r for r in reds if isinstance(r["result"], VInt)]
                 okc = len(counts) == 1
                 u.oblige(p, f"fitness.formulae[{fname}].dof", okc and res == total / (z3.ToReal(counts[0]["result"].v) - z3.ToReal(z3.Int("free_p"))), {})
+                if okc:
+                    # N counts the points that ENTER the sum: those where both the target and the simulated value are numbers
+                    ce = counts[0]["elem"](g)
+                    cb = z_bool(ce.v) if isinstance(ce, VBool) else (to_real(ce) != 0)
+                    u.oblige(p, f"fitness.formulae[{fname}].dof_counts_the_points_summed", z3.And(zb(len(counts[0]["shape"]) == 2), cb == z3.And(VALID(s_), VALID(t_))), {}, CHI2_REPLAY)
         u.cover(f"fitness.cover[{fname}]", ps, lambda p: p.kind == "return")
     return un
 
